@@ -48,6 +48,15 @@ func coldCall(id int) (d string, pan bool) {
 			d = callRender(calendar.NewLunarYear(1).GetMonths())
 		case 15:
 			d = digest(calendar.NewTao(4721, 1, 1, 0, 0, 0), nil) + digest(calendar.NewFoto(2568, 1, 1, 0, 0, 0), nil)
+		case 16:
+			// the observances of a day of a regular month whose number a leap month of the year before repeats
+			l := calendar.NewLunar(2021, 4, 8, 12, 0, 0)
+			d = callRender(l.GetFoto().GetFestivals()) + callRender(l.GetFoto().GetOtherFestivals()) + callRender(l.GetTao().GetFestivals()) +
+				callRender(l.GetFestivals()) + callRender(l.GetOtherFestivals())
+		case 17:
+			l := calendar.NewLunar(2020, -4, 8, 12, 0, 0)
+			d = callRender(l.GetFoto().GetFestivals()) + callRender(l.GetFoto().GetOtherFestivals()) + callRender(l.GetTao().GetFestivals()) +
+				callRender(l.GetFestivals()) + callRender(l.GetOtherFestivals())
 		}
 	})
 	if pan {
@@ -56,7 +65,7 @@ func coldCall(id int) (d string, pan bool) {
 	return
 }
 
-const nCold = 16
+const nCold = 18
 
 func c09Cold(c *ctx) {
 	first := c.shard % nCold
